@@ -48,6 +48,7 @@ def run_behaviour(meta, steps, catalogue, check_setup=True):
     sess = driver.Session(meta)
     all_steps = [(s, 'setup') for s in meta.get('setup', [])] + [(s, 'step') for s in steps]
     idx = 0
+    dev_before = {}          # per endpoint: deviation branches the model had taken before the current step
     for s, phase in all_steps:
         if phase == 'step':
             idx += 1
@@ -62,7 +63,8 @@ def run_behaviour(meta, steps, catalogue, check_setup=True):
                     'call': s.get('c', s.get('fs', s.get('k'))), 'a': s['a'], 'x': s['x'],
                     'expected': {k.split('.')[0]: s['p'].get(k.split('.')[0]) for k in d},
                     'observed': {k.split('.')[0]: obs.get(k.split('.')[0]) for k in d},
-                    'dev': s.get('dev', [])}
+                    'dev': s.get('dev', []), 'dev_before': dev_before.get(s['x'], [])}
+        dev_before[s['x']] = s.get('dev', [])
     return None
 
 
